@@ -14,7 +14,7 @@ from vlib.tlaparse import to_json, parse_behaviour_text
 
 WEAK_CASES = ["SkipTrustLevel", "AdjacentIgnoresNextVals", "NoExpiry", "FutureHeaderOK", "TrustLevelOnNewSet"]
 WEAK_CLIENT = ["SkipTrustLevel", "AdjacentIgnoresNextVals", "NoExpiry", "FutureHeaderOK", "TrustLevelOnNewSet",
-               "MismatchAlsoCountsAsMatch", "NoWitnessNeeded", "BackwardsUnbound"]
+               "MismatchAlsoCountsAsMatch", "NoWitnessNeeded", "BackwardsUnbound", "ReplacementHashUnchecked"]
 PROPS = {"TrustRootOnly", "StoreSound", "WitnessConfirmed", "NoConfirmationFromSilence", "AttackReported",
          "AttackStoresNothing", "StoreMonotone"}
 CASE_PROPS = {"VerifierSound", "AdjacentSound", "NonAdjacentSound", "BackwardsSound"}
@@ -41,8 +41,8 @@ def _run_from_behaviour(states, personas, src):
         if act["name"] == "Start":
             run["start_sched"] = list(act["sched"])
             started = True
-        elif act["name"] == "Verify":
-            run["steps"].append({"op": "Verify", "h": act["h"], "now": act["now"], "sched": list(act["sched"])})
+        elif act["name"] in ("Verify", "Update"):
+            run["steps"].append({"op": act["name"], "h": act["h"], "now": act["now"], "sched": list(act["sched"])})
     if not started:
         return None
     return run
@@ -111,7 +111,7 @@ def _inputs(ctx, quick):
         ctx.tlc("C09_client", "C09_weak_none.cfg", must_pass=True, timeout=900, workers=4, label="weak_base")
 
     # ---- behaviours for replay: simulation of the wide-persona configuration + attack schedules
-    nsim = 150 if quick else 2500
+    nsim = 150 if quick else 1500
     pref = os.path.join(ctx.work, "sim", "b")
     os.makedirs(os.path.dirname(pref), exist_ok=True)
     rcfg = core.cfg_variant(ctx, "C09_replay.cfg", "C09_replay_run.cfg",
@@ -202,7 +202,7 @@ def _sig(v):
 
 def run(ctx):
     quick = ctx.tier == "quick"
-    nrandom = 60 if quick else 1500        # random worlds (4 runs each)
+    nrandom = 60 if quick else 800         # random worlds (4 runs each)
     t = _inputs(ctx, quick)
     world, cases, runs = t["world"], t["cases"], t["runs"]
     if not cases or not runs:
@@ -233,9 +233,9 @@ def run(ctx):
     for r in rows_r:
         if r["ev"] == "Reset":
             cur = json.dumps([r["prov"], r["cfg"], r["root"]], sort_keys=True)
-        elif r["ev"] in ("Verify", "NewClient"):
+        elif r["ev"] in ("Verify", "Update", "NewClient"):
             res_classes[r["res"]] = res_classes.get(r["res"], 0) + 1
-            if r["ev"] == "Verify":
+            if r["ev"] != "NewClient":
                 nverify += 1
                 if r["obs"]:
                     key = [cur, r["h"], r["now"], r["obs"], r["res"], r["post"]]
@@ -246,6 +246,10 @@ def run(ctx):
                 if r["res"] == "nil" and r["obs"]:
                     nstored += 1
     accepted_cases = sum(1 for r in rows_c if r["verify"] == "ok")
+    # not part of the statement, recorded for the reader: after a failed primary replacement
+    # (findNewPrimary promotes the only witness and removeWitnesses then refuses to empty the
+    # list) the same provider is primary AND witness, and from then on confirms itself
+    self_witness = sum(1 for r in rows_r if r["ev"] != "Reset" and r["post"]["primary"] in r["post"]["wits"])
     rc_, rs_ = t["r_cases"], t["r_sim"]
     rcl_d = sum(r.distinct for r in t["r_client"])
     rcl_g = sum(r.generated for r in t["r_client"])
@@ -264,7 +268,7 @@ def run(ctx):
                 "is distinct by (tables, settings, height, now, observed requests/answers, result, store after)" % (
                     len(world["blocks"]), ctx.seed, len(WEAK_CLIENT), nrandom),
         "samples": [core.abridge([r for r in rows_c if r["verify"] == "ok"][:1] + rows_c[:1], 2),
-                    core.abridge([r for r in rows_r if r["ev"] == "Verify"][:3], 3)],
+                    core.abridge([r for r in rows_r if r["ev"] in ("Verify", "Update")][:3], 3)],
         "exhaustive": False,
         "tlc_runs": ctx.tlc_stats,
         "verifier_cases": len(rows_c),
@@ -276,6 +280,7 @@ def run(ctx):
         "result_classes_observed": res_classes,
         "distinct_witness_reply_orders_observed": len(orders),
         "simulated_states": rs_.generated,
+        "observations": {"calls_after_which_the_primary_is_also_listed_as_witness": self_witness},
         "conformance_drift": [{"what": d["what"], "spec": d.get("spec"), "step": core.abridge(d["row"])} for d in drift[:5]],
         "conformance_drift_count": len(drift),
         "nonvacuity": t["nonvacuity"],
@@ -320,8 +325,8 @@ def replay(ctx, path):
         for r in prefix[1:]:
             if r["ev"] == "NewClient":
                 run_["start_sched"] = r["sched"]
-            elif r["ev"] == "Verify":
-                run_["steps"].append({"op": "Verify", "h": r["h"], "now": r["now"], "sched": r["sched"]})
+            elif r["ev"] in ("Verify", "Update"):
+                run_["steps"].append({"op": r["ev"], "h": r["h"], "now": r["now"], "sched": r["sched"]})
         _w, _c, rows_r = _harness(ctx, world, [], [run_], 0)
         v = core.validate_traces(ctx, "TMLightTrace", rows_r, label="replay")
     verdict = core.Verdict(ctx)
